@@ -10,7 +10,7 @@ CONSTANTS
   Pairs = 1
   WdAmounts = {10}
   CfgIds = {2, 8}
-  ScenIds = {2}
+  ScenIds = {2, 6}
   FixIds = {1, 2, 3}
   VaryPrices = FALSE
   EmitOps = {"deposit", "withdraw"}
